@@ -49,6 +49,12 @@ MARKERS = {
     "custom": ("/* BEGIN-RAW */", "/* END-RAW */", {"disable_processing_cmt": " BEGIN-RAW", "enable_processing_cmt": " END-RAW"}, " BEGIN-RAW", " END-RAW"),
     "regex": ("/* RAW-17-BEGIN */", "/* RAW-17-END */", {"disable_processing_cmt": " RAW-[0-9]+-BEGIN", "enable_processing_cmt": " RAW-[0-9]+-END",
                                                        "processing_cmt_as_regex": "true"}, "-BEGIN", "-END"),
+    # regex mode switched on while one or both markers keep their built-in text (which is never a regular expression)
+    "regex-default": ("/* *INDENT-OFF* */", "/* *INDENT-ON* */", {"processing_cmt_as_regex": "true"}, " *INDENT-OFF*", " *INDENT-ON*"),
+    "regex-off-only": ("/* RAW-17-BEGIN */", "/* *INDENT-ON* */", {"disable_processing_cmt": " RAW-[0-9]+-BEGIN", "processing_cmt_as_regex": "true"},
+                       "-BEGIN", " *INDENT-ON*"),
+    "regex-on-only": ("// *INDENT-OFF*", "// RAW-17-END", {"enable_processing_cmt": " RAW-[0-9]+-END", "processing_cmt_as_regex": "true"},
+                      " *INDENT-OFF*", "-END"),
     "pragma-asm": ("#pragma asm", "#pragma endasm", {}, "#pragma asm", "endasm"),
     "asm": ("#asm", "#endasm", {}, "#asm", "#endasm"),
 }
@@ -236,6 +242,8 @@ def check(ctx):
             for marker in MARKERS:
                 if quick and marker in ("regex", "asm") and i % 3:
                     continue
+                if marker.startswith("regex-") and i % 3:
+                    continue          # both tiers: every third position for the mixed regex / built-in marker pairs
                 if quick and lang not in ("C", "CPP", "PAWN", "OC") and i % 2:
                     continue
                 for pn, st in (profs[:2] if quick else profs):
